@@ -1,2 +1,3 @@
+pub mod http;
 pub mod kv;
 pub mod time;
